@@ -4,6 +4,7 @@ returns None and is therefore reported as a new violation."""
 
 
 K_ABSTRACT = "abstracted-condition-loses-correlation-with-its-own-variables"
+K_FLOAT_PARAM = "float-literal-inside-distribution-parameter-expression-kept-as-double"
 
 
 def abstracted_condition_vars(program):
@@ -42,6 +43,18 @@ def classify_stage_violation(case, violation, stage, stages):
     """K_ABSTRACT: the first pass after which the law differs is the one that replaced a condition over a continuous
     draw by an independent Bernoulli event (the joint law of the draw and the variables assigned under the condition
     changes by design)"""
+    import re
+    text = case.get("text", "")
+    # a decimal literal multiplied with / added to an identifier inside the parameter list of a draw
+    in_param = re.search(r"[A-Z][A-Za-z]*\([^()\n]*?(\d+\.\d+\s*[*+-]\s*[a-z_]|[a-z_]\w*\s*[*+-]\s*\d+\.\d+)", text)
+    m = re.search(r"source ([-0-9.e]+) vs stage ([-0-9.e]+)", violation.get("detail", ""))
+    if in_param and m:
+        try:
+            a, b = float(m.group(1)), float(m.group(2))
+            if abs(a - b) <= 1e-13 * max(1.0, abs(a)):
+                return K_FLOAT_PARAM
+        except ValueError:
+            pass
     if stage.extra.get("abstracted") and stage.name in ("ConditionsNormalizer", "ConditionsToArithm"):
         prev = [s for s in stages if s.index == stage.index - 1]
         if stage.name == "ConditionsNormalizer" or (prev and prev[0].extra.get("abstracted")):
